@@ -2,6 +2,7 @@
 This module handles conversion of an Archive object to XML format
 and then restoration of an Archive from XML.
 """
+import re
 from ast import literal_eval
 from math import isinf
 from xml.etree.cElementTree import (
@@ -21,6 +22,16 @@ from GTC.nodes import Leaf
 from GTC.vector import Vector
 
 XMLNS = 'https://measurement.govt.nz/gtc/xml'
+
+# NCName of "Namespaces in XML 1.0": a Name of XML 1.0 (5th ed.) without colons
+_NAME_START = (
+    u'A-Z_a-z\xC0-\xD6\xD8-\xF6\xF8-\u02FF\u0370-\u037D\u037F-\u1FFF'
+    u'\u200C-\u200D\u2070-\u218F\u2C00-\u2FEF\u3001-\uD7FF'
+    u'\uF900-\uFDCF\uFDF0-\uFFFD\U00010000-\U000EFFFF'
+)
+_NCNAME = re.compile(
+    u'[%s][%s\\-.0-9\xB7\u0300-\u036F\u203F-\u2040]*\\Z' % (_NAME_START, _NAME_START)
+)
 
 
 def _py38indent(tree, space="  ", level=0):
@@ -152,6 +163,11 @@ def archive_to_xml(archive, indent=None, prefix=None):
         if ':' in prefix:
             raise ValueError(
                 "An XML namespace prefix cannot contain a colon, "
+                "got prefix={!r}".format(prefix))
+
+        if not _NCNAME.match(prefix):
+            raise ValueError(
+                "An XML namespace prefix must be an XML name (NCName), "
                 "got prefix={!r}".format(prefix))
 
         xmlns = ('xmlns:'+prefix, XMLNS)
